@@ -290,7 +290,7 @@ class Heartbeat(core.Scenario):
 
 def param_list(ctx):
     ps = []
-    grid = GRID[:3] if ctx.quick else GRID
+    grid = (GRID[:3] + [GRID[5]]) if ctx.quick else GRID        # the quick grid has one cell with a grace period
     names = ['zero', 'early', 'exact', 'late']
     seqs = [()] + [(a,) for a in names]
     if ctx.quick:
